@@ -234,3 +234,25 @@ Proof.
   - intros H. destruct (H 1%N 420%N (s "written through") 420%N (s "A")) as [_ Hc]; [discriminate | now left | right; now left |].
     discriminate.
 Qed.
+
+(* ------------------------------------------------------------------------------------------------
+   PATH SPELLING.  The theorems above are about trees; `from` enters the code as a string.  With a
+   `from` in filepath.Clean form every entry gets its relative name; with a DIRECTORY `from` whose
+   clean form is shorter the first callback panics (finding unclean-from-directory-panics: reachable
+   through build_rule(system_srcs = ["/abs//dir"])); a `from` that is not a directory is not walked. *)
+Definition C34_spelling_statement : Prop :=
+  (forall from rel : str, rel_of from (from ++ rel) = Some rel)
+  /\ (forall from cleaned : str, length cleaned < length from -> walk_panics from cleaned true = true)
+  /\ (forall from cleaned : str, walk_panics from cleaned false = false).
+
+Theorem C34_spelling : C34_spelling_statement.
+Proof. exact (conj rel_of_clean (conj unclean_from_panics file_from_never_panics)). Qed.
+Print Assumptions C34_spelling.
+
+Example C34_nonvacuous_spelling :
+  rel_of (s "out/dir") (s "out/dir/sub/f") = Some (s "/sub/f")
+  /\ walk_panics (s "sys//dir") (s "sys/dir") true = true
+  /\ walk_panics (s "sys/./dir") (s "sys/dir") true = true
+  /\ walk_panics (s "sys/dir/") (s "sys/dir") true = true
+  /\ walk_panics (s "sys//dir/f.txt") (s "sys/dir/f.txt") false = false.
+Proof. vm_compute. repeat split. Qed.
